@@ -32,12 +32,15 @@ where
 
       let obs_trigger = {
         let sctl_trigger_next = sctl.clone();
+        let sctl_trigger_error = sctl.clone();
 
         sctl.new_observer(
           move |_, _| {
             sctl_trigger_next.sink_complete_force();
           },
-          |_, _| {},
+          move |_, e| {
+            sctl_trigger_error.sink_error(e);
+          },
           |_| {},
         )
       };
